@@ -119,7 +119,7 @@ class TifaCore:
         if len(feedback) == 1:
             feedback = feedback[0]
         else:
-            feedback = lookup_feedback(feedback[0])(*feedback[1:])
+            feedback = lookup_feedback(feedback[0])(*feedback[1:], report=self.report)
         if feedback.label not in self.analysis.issues:
             self.analysis.issues[feedback.label] = []
         self.analysis.issues[feedback.label].append(feedback)
@@ -232,7 +232,7 @@ class TifaCore:
                 state = self.name_map[path_id][name]
                 if state.over == 'yes':
                     position = state.over_position
-                    self._issue(overwritten_variable(position, state.name))
+                    self._issue(overwritten_variable(position, state.name, report=self.report))
                 if state.read == 'no' and state.name != '_':
                     # Check if the variable was possibly read in a previous loop iteration
                     self._issue(unused_variable(state.position, state.name, state.type, report=self.report))
@@ -378,7 +378,7 @@ class TifaCore:
                 self._issue(write_out_of_scope(self.locate(), name, report=self.report))
             # Type change?
             if not is_subtype(store_type, variable.state.type):
-                self._issue(type_changes(position, name, variable.state.type, store_type))
+                self._issue(type_changes(position, name, variable.state.type, store_type, report=self.report))
             new_state.type = store_type
             # Overwritten?
             if variable.state.set == 'yes' and variable.state.read == 'no':
@@ -421,19 +421,19 @@ class TifaCore:
             out_of_scope_var = self.find_variable_out_of_scope(name)
             # Create a new instance of the variable on the current path
             if out_of_scope_var.exists:
-                self._issue(read_out_of_scope(self.locate(), name))
+                self._issue(read_out_of_scope(self.locate(), name, report=self.report))
             else:
-                self._issue(initialization_problem(self.locate(), name))
+                self._issue(initialization_problem(self.locate(), name, report=self.report))
             new_state = State(name, [], AnyType(), 'load', position,
                               read='yes', set='no', over='no')
             self.name_map[current_path][full_name] = new_state
         else:
             new_state = self.trace_state(variable.state, "load", position)
             if variable.state.set == 'no':
-                self._issue(initialization_problem(self.locate(), name))
+                self._issue(initialization_problem(self.locate(), name, report=self.report))
             if variable.state.set == 'maybe':
                 if name != '*return':
-                    self._issue(possible_initialization_problem(self.locate(), name))
+                    self._issue(possible_initialization_problem(self.locate(), name, report=self.report))
             new_state.read = 'yes'
             self.loop_usages.setdefault(current_path, []).append(full_name)
             if not variable.in_scope:
@@ -521,7 +521,7 @@ class TifaCore:
             state.over = 'no' if left.over == 'no' else 'maybe'
         else:
             if not is_subtype(left.type, right.type):
-                self._issue(type_changes(self.locate(), left.name, left.type, right.type))
+                self._issue(type_changes(self.locate(), left.name, left.type, right.type, report=self.report))
             if left.set == 'no' and right.set != 'no':
                 # On the left path the name was only read, without ever having
                 # been assigned: that is no use of the right path's assignment
